@@ -6,6 +6,9 @@ import json
 import sys
 
 
+_TAG_SETS = {}      # tag sets the "user program" keeps for the whole process
+
+
 def canon_table(entries):
     return [[int(e.key), int(e.mask), sorted(int(r) for r in e.route),
              sorted((None if s is None else int(s)) for s in e.sources)
@@ -60,7 +63,8 @@ def run_probe(spec):
         from vf.props import c08
         from vf.core import Violation
         try:
-            model, stats = c08.run_history(spec["case"])
+            model, stats = c08.run_history(spec["case"],
+                                           shared_pool=_TAG_SETS)
         except Violation as v:
             return ["violation", v.message]
         return ["ok", stats["layouts"], [
